@@ -176,16 +176,23 @@ func (v *V) Int(name string, lo, hi int) int {
 	return x
 }
 
-func (v *V) IntAny(name string) int          { return int(v.lookup(name).(int64)) }
-func (v *V) Uint32(name string) uint32       { return uint32(v.lookup(name).(int64)) }
-func (v *V) Int32(name string) int32         { return int32(v.lookup(name).(int64)) }
-func (v *V) Byte(name string) byte           { return byte(v.lookup(name).(int64)) }
-func (v *V) Freeze()                         {}
-func (v *V) Unfreeze()                       {}
-func (v *V) SharedWrites() int               { return 0 }
-func (v *V) RecoveredPanics() int            { return 0 }
-func (v *V) CallerHook(id string, depth int) {}
-func (v *V) ClearCallerHook()                {}
+// RegistryKey draws a type key from one of the library's live registries
+// (0 leaf decoders, 1 wrapper decoders, 2 multi-cause decoders, 3 leaf
+// encoders, 4 wrapper encoders) plus one unregistered key. The engine
+// enumerates the registry of the current tree; natively the key comes from
+// the witness.
+func (v *V) RegistryKey(name string, which int) string { return v.lookup(name).(string) }
+
+func (v *V) IntAny(name string) int                    { return int(v.lookup(name).(int64)) }
+func (v *V) Uint32(name string) uint32                 { return uint32(v.lookup(name).(int64)) }
+func (v *V) Int32(name string) int32                   { return int32(v.lookup(name).(int64)) }
+func (v *V) Byte(name string) byte                     { return byte(v.lookup(name).(int64)) }
+func (v *V) Freeze()                                   {}
+func (v *V) Unfreeze()                                 {}
+func (v *V) SharedWrites() int                         { return 0 }
+func (v *V) RecoveredPanics() int                      { return 0 }
+func (v *V) CallerHook(id string, depth int, mode int) {}
+func (v *V) ClearCallerHook()                          {}
 
 func (v *V) Assume(c bool) {
 	if !c {
